@@ -3,6 +3,8 @@ package main
 import (
 	"bytes"
 	"context"
+	"crypto/sha256"
+	"encoding/hex"
 	"fmt"
 	"math/big"
 	"os"
@@ -206,7 +208,37 @@ type SolverResult struct {
 	Secs   float64
 }
 
+// proofCache: a query text that some solver already answered unsat need not be solved again (identical text,
+// identical answer). Only unsat answers are cached.
+var proofCacheDir = ""
+
+func cacheKey(file string) string {
+	data, err := os.ReadFile(file)
+	if err != nil {
+		return ""
+	}
+	h := sha256.Sum256(data)
+	return hex.EncodeToString(h[:])
+}
+
 func runSolver(name string, file string, timeoutS int) SolverResult {
+	key := ""
+	if proofCacheDir != "" {
+		key = cacheKey(file)
+		if key != "" {
+			if b, err := os.ReadFile(filepath.Join(proofCacheDir, key)); err == nil {
+				return SolverResult{Status: "unsat", Solver: strings.TrimSpace(string(b)) + "[cached]", Secs: 0}
+			}
+		}
+	}
+	r := runSolverRaw(name, file, timeoutS)
+	if r.Status == "unsat" && key != "" {
+		_ = os.WriteFile(filepath.Join(proofCacheDir, key), []byte(name), 0o644)
+	}
+	return r
+}
+
+func runSolverRaw(name string, file string, timeoutS int) SolverResult {
 	var cmd *exec.Cmd
 	ctx, cancel := context.WithTimeout(context.Background(), time.Duration(timeoutS+2)*time.Second)
 	defer cancel()
